@@ -306,6 +306,31 @@ def entries():
     add("MaskedAutoregressiveFlow/two-features+random-permutations", "flow", lambda: FL.MaskedAutoregressiveFlow(2, 8, num_layers=3, num_blocks_per_layer=1, use_random_permutations=True), _rn(2), flags={"sample", "ctor_random"})
     add("MaskedAutoregressiveFlow", "flow", lambda: FL.MaskedAutoregressiveFlow(3, 8, num_layers=2, num_blocks_per_layer=1, use_random_permutations=True, use_random_masks=True, use_residual_blocks=False, batch_norm_between_layers=True), _rn(3), flags={"sample", "ctor_random", "needs_init", "batch_coupled_train"})
     add("SimpleRealNVP", "flow", lambda: FL.SimpleRealNVP(4, 8, num_layers=2, num_blocks_per_layer=1), _rn(4), flags={"sample"})
+    # ---- non-default constructor arguments that no entry above uses
+    add("LULinear/eps=0.3", "transform", lambda: TR.LULinear(3, identity_init=False, eps=0.3), _rn(3), flags={"inv", "linear"})
+    add("SVDLinear/eps=0.2", "transform", lambda: TR.SVDLinear(3, num_householder=2, identity_init=False, eps=0.2), _rn(3), flags={"inv", "linear"})
+    add("Sigmoid/T=3+eps=1e-3", "transform", lambda: NL.Sigmoid(temperature=3.0, eps=1e-3), _rn(3), flags={"anyshape", "inv", "noparams"}, y=_ru(3))
+    for nm, cls, tb in [("Linear", NL.PiecewiseLinearCDF, 0.5), ("Quadratic", NL.PiecewiseQuadraticCDF, 3.0), ("Cubic", NL.PiecewiseCubicCDF, 0.5), ("RQ", NL.PiecewiseRationalQuadraticCDF, 0.5)]:
+        add("Piecewise%sCDF/tails=%s" % (nm, tb), "transform", (lambda cls=cls, tb=tb: cls([3], num_bins=4, tails="linear", tail_bound=tb)), _rn(3), flags={"inv", "spline"})
+    add("PiecewiseRQCoupling/tails=0.5+uncond", "transform", lambda: TR.PiecewiseRationalQuadraticCouplingTransform(mask4, resnet(), num_bins=4, tails="linear", tail_bound=0.5, apply_unconditional_transform=True), _rn(4), flags={"inv", "spline"})
+    add("PiecewiseCubicCoupling/tails=0.5+uncond", "transform", lambda: TR.PiecewiseCubicCouplingTransform(mask4, resnet(), num_bins=4, tails="linear", tail_bound=0.5, apply_unconditional_transform=True), _rn(4), flags={"inv", "spline"})
+    class NoContext(torch.nn.Module):
+        """nets.MLP takes no context argument: the adapter a user writes to condition a coupling layer with it."""
+
+        def __init__(self, net):
+            super().__init__()
+            self.net = net
+
+        def forward(self, inputs, context=None):
+            return self.net(inputs)
+
+    add("AffineCoupling/MLP-conditioner", "transform", lambda: TR.AffineCouplingTransform(mask4, lambda i, o: NoContext(nets.MLP([i], [o], hidden_sizes=[8, 8]))), _rn(4), flags={"inv"})
+    add("AffineCoupling/image+conv-batchnorm+dropout", "transform", lambda: TR.AffineCouplingTransform([1, 0, 1], lambda i, o: nets.ConvResidualNet(i, o, hidden_channels=4, num_blocks=1, use_batch_norm=True, dropout_probability=0.2)), _rn(3, 2, 3), flags={"inv", "image", "inner_bn", "dropout"})
+    add("Permutation/explicit", "transform", lambda: TR.Permutation(torch.tensor([2, 0, 3, 1])), _rn(4), flags={"inv", "noparams"})
+    add("BatchNorm/momentum=0.5", "transform", lambda: TR.BatchNorm(3, momentum=0.5), _rn(3), flags={"inv", "needs_init", "batch_coupled_train"})
+    add("MADEMoG/custom-initialisation", "dist", lambda: MADEMoG(2, 8, context_features=None, num_blocks=1, num_mixture_components=3, custom_initialization=True), _rn(2), flags={"sample", "nonreparam"})
+    add("SimpleRealNVP/volume-preserving+dropout", "flow", lambda: FL.SimpleRealNVP(4, 8, num_layers=2, num_blocks_per_layer=1, use_volume_preserving=True, dropout_probability=0.2), _rn(4), flags={"sample", "dropout"})
+    add("MaskedAutoregressiveFlow/feed-forward+dropout", "flow", lambda: FL.MaskedAutoregressiveFlow(3, 8, num_layers=2, num_blocks_per_layer=2, use_residual_blocks=False, dropout_probability=0.2), _rn(3), flags={"sample", "dropout"})
     add("SimpleRealNVP/batchnorm-within", "flow", lambda: FL.SimpleRealNVP(4, 8, num_layers=2, num_blocks_per_layer=1, batch_norm_within_layers=True), _rn(4), flags={"sample", "inner_bn", "needs_init", "batch_coupled_train"})
     return E
 
